@@ -49,10 +49,22 @@ layout with distinct sibling sites, every conforming tree, every operand payload
   computes; `C05_eval_instance_is_flat_call`: hence one sample of a function instance in the reference semantics (zero-init
   of `self`, body, store the returned value) and the state instructions of the call on the flat storage commute with
   `serialize` — the flat machine simulates the evaluator's state, access sequence `expectedTrace`, in bounds.
-NOT proved: that mirgen publishes, for each function, the cells its body visits in evaluation order (`Visits` / `Covers` are
-hypotheses relating a program to its published layout; mirgen is judged on the recorded traces by `conforms`; state inside
-`if` arms — finding F3 — violates `Visits` on the pinned tree), and that returned values have the word count of their `Feed`
-cell (`NPayOk`, a typing fact; soundness of the type checker is not proved, see C03).
+## the published layout, computed (third part, namespace `Mimium.Publish`)
+
+`Model/Publish.lean` defines what mirgen publishes for a function (`publishFn`, a port of how `eval_expr` accumulates
+`state_skeleton`; compared with the real compiler's `dsp` skeleton on every generated program by the correspondence stage),
+and the `Visits` / `Covers` / `LNode.Ok` hypotheses above are PROVED for it: `C05_publish_visits`, `C05_publishFn_visits`,
+`C05_publish_ok`, `C05_published_skeleton_same_meaning`, and the corollaries `C05_published_instance_is_flat_call`,
+`C05_published_same_words_same_eval_future`, `C05_published_eval_respects_agreement`, `C05_published_state_effect_is_tree_ops`
+whose only program-side hypotheses are decidable syntactic class predicates (`noStateInArmsN`: no cell — stateful construct
+or named call — inside an `if` arm, in the function and its callees; `SitesUnique` / `SitesOk`: sites of one body distinct,
+ring lengths < 2^64) and `publishFnN n P d = some lay` (callees defined, no recursion).  Outside the class the layout is
+not visited in order: `C05_state_in_arms_not_visited` (finding F3 at model level).
+NOT proved: that the Rust `mirgen` computes `publishFn` (corresponded, not proved); the class does not include calls of
+STATELESS named functions inside `if` arms (the reference semantics gives every named call site a child node, which the arm
+that is not taken never creates; the flat image is the same but the trees differ, and the theorems are stated with equality
+of trees); and that returned values have the word count of their `Feed` cell (`NPayOk`, a typing fact; soundness of the type
+checker is not proved, see C03).
 -/
 namespace Mimium.Layout
 open Mimium.StateTree
@@ -498,6 +510,25 @@ theorem C05_published_same_words_same_eval_future (fuel n : Nat) (P : Prog) (d :
   obtain ⟨hself, _, hcov⟩ := C05_publishFn_visits n P d lay harms hpub
   rw [← hself]
   exact C05_same_words_same_eval_future fuel P lay d.body samples a b (C05_publish_ok n P d lay hs hd hpub) hcov ha hb h
+
+/-- `C05_eval_respects_agreement` for the published layout of a function (hypotheses `LayOkL`, `Covers` discharged) -/
+theorem C05_published_eval_respects_agreement (n : Nat) (P : Prog) (d : FnDecl) (lay : LNode) (rt : Rt) (fuel : Nat)
+    (env : Env) (σ : Store) (st₁ st₂ : SNode)
+    (hpub : publishFnN n P d = some lay)
+    (harms : noStateInArmsN n P d.body = true) (hs : SitesUnique P) (hd : SitesOk d.body)
+    (hag : AgreeN lay.cells st₁ st₂) :
+    SRel (RE lay.cells) (eval fuel P rt env d.body σ st₁) (eval fuel P rt env d.body σ st₂) :=
+  C05_eval_respects_agreement P rt fuel d.body lay.cells env σ st₁ st₂ (C05_publish_ok n P d lay hs hd hpub)
+    (C05_publishFn_visits n P d lay harms hpub).2.2 hag
+
+/-- `C05_eval_state_effect_is_tree_ops` for the cells published for ANY expression (hypothesis `Visits` discharged):
+a successful evaluation changes the state tree exactly as the per-site tree operations of the published cells do -/
+theorem C05_published_state_effect_is_tree_ops (n : Nat) (P : Prog) (rt : Rt) (fuel : Nat) (e : Expr) (seg : List LCell)
+    (env : Env) (σ : Store) (st : SNode) (v : Val) (σ' : Store) (st' : SNode)
+    (hpub : publishEN n P e = some seg) (harms : noStateInArmsN n P e = true)
+    (h : eval fuel P rt env e σ st = .ok (v, σ', st')) :
+    ∃ ps, PayShapeL seg ps ∧ st' = (treeCells seg ps st).1 :=
+  C05_eval_state_effect_is_tree_ops P rt fuel e seg env σ st v σ' st' (C05_publish_visits n P e seg harms hpub).1 h
 
 /-- `publishFn` / `publishE` / `noStateInArms` are the instances at depth `|P.fns|` -/
 theorem C05_publishFn_is_depth_instance (P : Prog) (d : FnDecl) (e : Expr) :
